@@ -353,6 +353,8 @@ func isRelevantForPackager(packager string, content *Content) bool {
 }
 
 func addParents(contentMap map[string]*Content, path string, mtime time.Time) error {
+	// the parents of the path the entry is actually stored at
+	path = NormalizeAbsoluteFilePath(path)
 	for _, parent := range sortedParents(path) {
 		parent = NormalizeAbsoluteDirPath(parent)
 		// check for content collision and just overwrite previously created
